@@ -5,6 +5,7 @@ import (
 	"fmt"
 
 	fail "github.com/textwire/textwire/v2/fail"
+	"github.com/textwire/textwire/v2/utils"
 )
 
 type Env struct {
@@ -26,7 +27,8 @@ func NewEnclosedEnv(outer *Env) *Env {
 func EnvFromMap(data map[string]any) (*Env, *fail.Error) {
 	env := NewEnv()
 
-	for key, val := range data {
+	for _, key := range utils.SortedKeys(data) {
+		val := data[key]
 		obj := NativeToObject(val)
 
 		if obj == nil {
